@@ -145,7 +145,7 @@ func runStress(cfg stressCfg) (res stressResult) {
 		p.pool.Start()
 		wantG += p.pool.WorkerCount() + 1
 	}
-	if p0 := patternOf(waitQuiescent(), before); p0.total() != wantG || p0.ReadLoop != wantG-len(pools) {
+	if p0 := patternOf(waitQuiescent(), before); p0.total() != wantG || p0.InTask != 0 || p0.Other != 0 || p0.NDisp > len(pools) {
 		res.Blind = fmt.Sprintf("structural rules identify %q instead of %d dispatchers + %d idle workers right after Start", p0.String(), len(pools), wantG-len(pools))
 		for _, p := range pools {
 			p.pool.Shutdown()
@@ -375,7 +375,7 @@ func runStress(cfg stressCfg) (res stressResult) {
 				break
 			}
 		}
-		if p1 := patternOf(gs1, before); len(res.Findings) == 0 && (p1.NDisp != len(pools) || p1.total() != wantG) {
+		if p1 := patternOf(gs1, before); len(res.Findings) == 0 && (p1.NDisp > len(pools) || p1.total() != wantG) {
 			res.Findings = append(res.Findings, finding{"start/pool-started-twice", fmt.Sprintf("stress: %d pools with %d goroutines in total are running, but the snapshot shows %d dispatchers and %d pool goroutines (%s)", len(pools), wantG, p1.NDisp, p1.total(), p1)})
 		}
 	default:
